@@ -183,7 +183,7 @@ p9: if (\E i \in DOMAIN threads : threads[i] = self) {   \*   if self in self.de
 p9c:  sstate[self] := "closed";                          \*     self.stream.close()
 p10:  Acquire(mgrLock, self);                                  \*     thread_finished: with self.lock:
 p11:  threads := SelectSeq(threads, LAMBDA x : x # self);\*       self._threads.remove(thread)
-      if (JoinAll) {                                     \*       (fixed) remember it until it has really ended
+p11b: if (JoinAll) {                                     \*       (fixed) remember it until it has really ended
         finishing := Append(SelectSeq(finishing, LAMBDA x : alive[x]), self);
       };
 p11r: Release(mgrLock);
@@ -764,15 +764,24 @@ p10(self) == /\ pc[self] = "p10"
 
 p11(self) == /\ pc[self] = "p11"
              /\ threads' = SelectSeq(threads, LAMBDA x : x # self)
-             /\ IF JoinAll
-                   THEN /\ finishing' = Append(SelectSeq(finishing, LAMBDA x : alive[x]), self)
-                   ELSE /\ TRUE
-                        /\ UNCHANGED finishing
-             /\ pc' = [pc EXCEPT ![self] = "p11r"]
+             /\ pc' = [pc EXCEPT ![self] = "p11b"]
              /\ UNCHANGED << mgrLock, haltLock, thrLock, go, halting, finished, 
-                             started, alive, written, sstate, terminated, 
-                             badWrite, nctl, closed, playRaised, aliveAtClose, 
-                             openAtClose, faulted, tgt, th, tojoin, idx >>
+                             finishing, started, alive, written, sstate, 
+                             terminated, badWrite, nctl, closed, playRaised, 
+                             aliveAtClose, openAtClose, faulted, tgt, th, 
+                             tojoin, idx >>
+
+p11b(self) == /\ pc[self] = "p11b"
+              /\ IF JoinAll
+                    THEN /\ finishing' = Append(SelectSeq(finishing, LAMBDA x : alive[x]), self)
+                    ELSE /\ TRUE
+                         /\ UNCHANGED finishing
+              /\ pc' = [pc EXCEPT ![self] = "p11r"]
+              /\ UNCHANGED << mgrLock, haltLock, thrLock, go, halting, 
+                              finished, threads, started, alive, written, 
+                              sstate, terminated, badWrite, nctl, closed, 
+                              playRaised, aliveAtClose, openAtClose, faulted, 
+                              tgt, th, tojoin, idx >>
 
 p11r(self) == /\ pc[self] = "p11r"
               /\ mgrLock' = -1
@@ -804,8 +813,8 @@ p13(self) == /\ pc[self] = "p13"
 Player(self) == p0(self) \/ p1(self) \/ p1w(self) \/ p1h(self) \/ p2(self)
                    \/ p3(self) \/ p4(self) \/ p5(self) \/ p5h(self)
                    \/ p6(self) \/ p8(self) \/ p9(self) \/ p9c(self)
-                   \/ p10(self) \/ p11(self) \/ p11r(self) \/ p12(self)
-                   \/ p13(self)
+                   \/ p10(self) \/ p11(self) \/ p11b(self) \/ p11r(self)
+                   \/ p12(self) \/ p13(self)
 
 (* Allow infinite stuttering to prevent deadlock on termination. *)
 Terminating == /\ \A self \in ProcSet: pc[self] = "Done"
@@ -824,7 +833,7 @@ Termination == <>(\A self \in ProcSet: pc[self] = "Done")
 ---------------------------------------------------------------------------
 (* Labels that are NOT calls into threading / the backend: the harness' scheduler cannot       *)
 (* interleave other threads between a visible operation and the invisible code that follows it *)
-Invisible == {"mp2", "mp4", "st2", "cs2", "c1", "c3", "c4", "c8", "c8a", "ap2", "p1", "p1h", "p4", "p5h", "p9", "p11",
+Invisible == {"mp2", "mp4", "st2", "cs2", "c1", "c3", "c4", "c8", "c8a", "ap2", "p1", "p1h", "p4", "p5h", "p9", "p11", "p11b",
               "ctl", "Fin"}
 
 ProcAt(p) == pc[p]
